@@ -81,7 +81,7 @@ def _hum_cases(tier):
         units = ["M", "k", "Gb", ""]
     else:
         shapes = [("D.DD", 2), ("DD.D", 1), ("D,DDD", 0), ("DDD.DDD", 3), ("DD", 0), ("DDDD.DD", 2), ("D.DDDD", 4), ("DDDDD.D", 1), ("DD,DDD.DD", 2),
-                  ("DDDDDDD", 0), (".DDD", 3)]
+                  ("DDDDDDD", 0), (".DDD", 3), ("DDD,DDD,DDD", 0), ("D.DDDDDD", 6), ("DDDDDD.DDDD", 4), ("D,DDD,DDD.D", 1)]
         units = ["M", "k", "Gb", "", "kb", "MB", "g", "K"]
     for shape, F in shapes:
         for u in units:
@@ -398,7 +398,7 @@ CHECKS = [
     Check("humanized", _hum_cases, humanized_sym, humanized_real, labels=("denotes_integer",),
           doc="parse_humanized executed from source on numerals with symbolic digits; float() = one correctly rounded binary64 division, "
               "*= fp.mul, int() = fp.to_sbv(RTZ); Fraction/Decimal exact: result == numeral x unit whenever that is an integer",
-          bounds=dict(quick="5 digit shapes (<=6 digits, <=3 fraction digits) x units {M,k,Gb,none}", thorough="11 shapes (<=7 digits, <=4 fraction digits) x 8 units"),
+          bounds=dict(quick="5 digit shapes (<=6 digits, <=3 fraction digits) x units {M,k,Gb,none}", thorough="15 shapes (<=10 digits, <=6 fraction digits) x 8 units"),
           stubs=("strtod of ddd.ddd == RNE(d / 10^F) (d < 2^53, F <= 22)", "E10 re on a digit-representative string (pattern checked for digit-only-through-classes)"),
           timeout=1800, path_timeout=900),
     Check("region_grammar", lambda tier: [dict(kind="good", idx=i) for i in range(len(GOOD))] + [dict(kind="bad", idx=i) for i in range(len(BAD))],
